@@ -306,6 +306,15 @@ class ArgGuard:
             if not lazy and (v is self.main_stack or any(v is s for s in stacks)):
                 self.exempt_stack_args += 1
                 continue
+            if not lazy and top:
+                # the calling program scope's own `stack` (a list item's private stack copy is not
+                # registered with the context, but it is a stack all the same, not a value)
+                try:
+                    if back.f_locals.get("stack") is v:
+                        self.exempt_stack_args += 1
+                        continue
+                except Exception:  # noqa
+                    pass
             if not top and id(v) not in self._visible:
                 continue
             guarded.append((name, v, snap(v)))
